@@ -98,7 +98,8 @@ class ImplCrash(CheckBroken):
     a statement about fs_db (the implementation panics or hangs on a valid input), reported as a violation by ./check."""
 
     def __init__(self, binary, cmd, lines, extra, stderr, kind):
-        CheckBroken.__init__(self, "%s %s: implementation %s: %s" % (os.path.basename(binary), cmd, kind, stderr[-1500:]))
+        head = next((l for l in stderr.split("\n") if l.startswith(("panic:", "fatal error:"))), "")
+        CheckBroken.__init__(self, "%s %s: implementation %s: %s\n%s" % (os.path.basename(binary), cmd, kind, head, stderr[-1500:]))
         self.binary, self.cmd, self.lines, self.extra, self.stderr, self.kind = binary, cmd, list(lines), list(extra), stderr, kind
 
 
